@@ -92,6 +92,9 @@ func (m *Machine) CheckAllIssued(where string) {
 			m.checkManaged(where, ma, is)
 			m.checkPriv(where, ma, is)
 		}
+		for _, h := range m.Held {
+			m.checkPriv(where+", address object handed out by DeriveFromKeyPath while locked", h.MA, h.Is)
+		}
 		for _, im := range m.Imports {
 			ma, err := m.Mgr.Address(ns, im.Address)
 			if err != nil {
